@@ -134,4 +134,97 @@ theorem icmp4Hdr_length (t c id seq : Nat) (p : Bytes) :
 theorem greHdr_length_ge (f : GreF) (hc : f.c = true) : 8 ≤ (greHdr f).length := by
   simp [greHdr, hc, putBe16]
 
+/-! ### a flipped address bit in the pseudo-header -/
+
+theorem wordsum_pseudoBytes (net : Net) (proto len : Nat) (hok : net.ok = true) (hp : proto < 256) (hlen : net.lenOk len) :
+    wordsum (net.pseudoBytes proto len) =
+      match net with
+      | .v4 s d => wordsum s + wordsum d + proto + len
+      | .v6 s d => wordsum s + wordsum d + (len / 65536 + len % 65536) + proto := by
+  cases net with
+  | v4 s d =>
+    simp only [Net.ok, Bool.and_eq_true, beq_iff_eq] at hok
+    simp only [Net.lenOk] at hlen
+    simp only [Net.pseudoBytes, List.append_assoc]
+    rw [wordsum_append _ _ (by omega), wordsum_append _ _ (by omega)]
+    have : wordsum ([0, u8 proto] ++ putBe16 len) = proto + len := by
+      have := wordsum_putBe16 len hlen []
+      simp only [List.append_nil] at this
+      simp only [List.cons_append, List.nil_append, wordsum, u8_toNat]
+      simp only [wordsum] at this
+      have e : (0 : UInt8).toNat = 0 := rfl
+      rw [e]
+      generalize hq : wordsum (putBe16 len) = q at *
+      omega
+    rw [this]; omega
+  | v6 s d =>
+    simp only [Net.ok, Bool.and_eq_true, beq_iff_eq] at hok
+    simp only [Net.lenOk] at hlen
+    simp only [Net.pseudoBytes, List.append_assoc]
+    rw [wordsum_append _ _ (by omega), wordsum_append _ _ (by omega), wordsum_putBe32 len hlen]
+    simp only [wordsum, u8_toNat]
+    have e : (0 : UInt8).toNat = 0 := rfl
+    rw [e]; omega
+
+theorem Net.flipSrc_ok (net : Net) (i : Nat) (h : net.ok = true) : (net.flipSrc i).ok = true := by
+  cases net <;> simpa [Net.ok, Net.flipSrc, length_flipBit] using h
+
+theorem Net.flipDst_ok (net : Net) (i : Nat) (h : net.ok = true) : (net.flipDst i).ok = true := by
+  cases net <;> simpa [Net.ok, Net.flipDst, length_flipBit] using h
+
+/-- flipping one address bit moves the pseudo-header sum by ± 2^k, k < 16 -/
+theorem l4c0_flipSrc (net : Net) (proto len i : Nat) (hok : net.ok = true) (hp : proto < 256) (hlen : net.lenOk len)
+    (hi : i < net.addrBits) :
+    ∃ k, k < 16 ∧ (l4c0 (net.flipSrc i) proto len = l4c0 net proto len + 2 ^ k ∨
+                   l4c0 (net.flipSrc i) proto len + 2 ^ k = l4c0 net proto len) := by
+  have hok' := net.flipSrc_ok i hok
+  have hlen' : (net.flipSrc i).lenOk len := by cases net <;> exact hlen
+  obtain ⟨a, _, _⟩ := l4c0_spec net proto len hok hp hlen
+  obtain ⟨a', _, _⟩ := l4c0_spec (net.flipSrc i) proto len hok' hp hlen'
+  rw [a, a', wordsum_pseudoBytes _ _ _ hok hp hlen, wordsum_pseudoBytes _ _ _ hok' hp hlen']
+  cases net with
+  | v4 s d =>
+    simp only [Net.ok, Bool.and_eq_true, beq_iff_eq] at hok
+    obtain ⟨k, hk, hk'⟩ := wordsum_flipBit s i (by simp only [Net.addrBits] at hi; omega)
+    refine ⟨k, hk, ?_⟩
+    simp only [Net.flipSrc]
+    rcases hk' with e | e
+    · left; omega
+    · right; omega
+  | v6 s d =>
+    simp only [Net.ok, Bool.and_eq_true, beq_iff_eq] at hok
+    obtain ⟨k, hk, hk'⟩ := wordsum_flipBit s i (by simp only [Net.addrBits] at hi; omega)
+    refine ⟨k, hk, ?_⟩
+    simp only [Net.flipSrc]
+    rcases hk' with e | e
+    · left; omega
+    · right; omega
+
+theorem l4c0_flipDst (net : Net) (proto len i : Nat) (hok : net.ok = true) (hp : proto < 256) (hlen : net.lenOk len)
+    (hi : i < net.addrBits) :
+    ∃ k, k < 16 ∧ (l4c0 (net.flipDst i) proto len = l4c0 net proto len + 2 ^ k ∨
+                   l4c0 (net.flipDst i) proto len + 2 ^ k = l4c0 net proto len) := by
+  have hok' := net.flipDst_ok i hok
+  have hlen' : (net.flipDst i).lenOk len := by cases net <;> exact hlen
+  obtain ⟨a, _, _⟩ := l4c0_spec net proto len hok hp hlen
+  obtain ⟨a', _, _⟩ := l4c0_spec (net.flipDst i) proto len hok' hp hlen'
+  rw [a, a', wordsum_pseudoBytes _ _ _ hok hp hlen, wordsum_pseudoBytes _ _ _ hok' hp hlen']
+  cases net with
+  | v4 s d =>
+    simp only [Net.ok, Bool.and_eq_true, beq_iff_eq] at hok
+    obtain ⟨k, hk, hk'⟩ := wordsum_flipBit d i (by simp only [Net.addrBits] at hi; omega)
+    refine ⟨k, hk, ?_⟩
+    simp only [Net.flipDst]
+    rcases hk' with e | e
+    · left; omega
+    · right; omega
+  | v6 s d =>
+    simp only [Net.ok, Bool.and_eq_true, beq_iff_eq] at hok
+    obtain ⟨k, hk, hk'⟩ := wordsum_flipBit d i (by simp only [Net.addrBits] at hi; omega)
+    refine ⟨k, hk, ?_⟩
+    simp only [Net.flipDst]
+    rcases hk' with e | e
+    · left; omega
+    · right; omega
+
 end Gp.CksumEmit
